@@ -57,7 +57,7 @@ def malform(rng, c):
         if not nodes:
             break
         k = rng.choice(["notype", "badtype", "edge", "edge", "edge", "dot", "rmpin", "retype_pin", "rmedge",
-                        "noout", "retype"])
+                        "noout", "retype", "swap_pin", "swap_pin"])
         n = rng.choice(nodes)
         if k == "notype":
             g.nodes[n].pop("type", None)
@@ -76,6 +76,15 @@ def malform(rng, c):
             pins = [x for x in nodes if "." in x]
             if pins:
                 g.nodes[rng.choice(pins)]["type"] = rng.choice(["buf", "bb_input", "bb_output", "input"])
+        elif k == "swap_pin":
+            # a pin node that carries the OTHER pin type and is otherwise legally wired for it (no wires at all): the only
+            # rule it breaks is "missing or mistyped blackbox pins"
+            pins = [x for x in nodes if g.nodes[x].get("type") in ("bb_input", "bb_output")]
+            if pins:
+                x = rng.choice(pins)
+                g.nodes[x]["type"] = "bb_output" if g.nodes[x]["type"] == "bb_input" else "bb_input"
+                for e in list(g.in_edges(x)) + list(g.out_edges(x)):
+                    g.remove_edge(*e)
         elif k == "rmedge":
             es = list(g.edges)
             if es:
@@ -96,7 +105,7 @@ class P(Prop):
             "non-trivial when it has >=1 gate; distinct = distinct canonical (graph, flags)")
     assumptions = ["set-iteration order in the patched run is the model's ordBy(seed) family",
                    "oracle `violates` re-implements the documented rule list independently of utils.lint"]
-    budget = {"quick": (150, 150), "thorough": (2500, 2500)}
+    budget = {"quick": (300, 300), "thorough": (2500, 2500)}
 
     def gen_case(self):
         rng = self.rng
@@ -272,9 +281,23 @@ class P(Prop):
                 p.fill_blackbox("zz_b", child)
                 return p
 
+            def ru_seq():
+                d = seq.copy()
+                inst = sorted(d.blackboxes)[0]
+                qb = d.add("zz_qd", "buf", uid=True)
+                if not d.fanout(f"{inst}.q"):
+                    d.connect(f"{inst}.q", qb)
+                else:
+                    # a second flop whose q pin feeds only dead logic
+                    d.add_blackbox(d.blackboxes[inst], "zz_ffd", {"d": sorted(d.inputs())[0], "clk": "clk", "q": qb})
+                d.add("zz_dead", "not", fanin=[qb], uid=True)
+                d.remove_unloaded()
+                return d
+
             for name, f in [("add_subcircuit", compose),
                             ("fill_blackbox", fill),
                             ("remove_unloaded", ru),
+                            ("remove_unloaded_seq", ru_seq),
                             ("strip_blackboxes", lambda: cg.tx.strip_blackboxes(seq, rng.choice([None, "clk", ["clk"]]))),
                             ("limit_fanin", lambda: cg.tx.limit_fanin(c, rng.choice([2, 3]))),
                             ("limit_fanout", lambda: cg.tx.limit_fanout(c, rng.choice([2, 3]))),
